@@ -82,6 +82,9 @@ func (t *TNC) Close() error {
 }
 
 func (t *TNC) RegisterPort(port int, mycall string) (*Port, error) {
+	if t.demux.isClosed() {
+		return nil, ErrTNCClosed
+	}
 	ctx, cancel := context.WithTimeout(context.Background(), 10*time.Second)
 	defer cancel()
 	p := newPort(t, uint8(port), mycall)
